@@ -505,7 +505,8 @@ class DimensionValue(Value):
 
     Covers DIMENSION, PERCENTAGE or NUMBER values.
     """
-    __reUnNumDim = re.compile(r'^([+-]?)(\d*\.\d+|\d+)(.*)$', re.I | re.U | re.X)
+    # (re.S: an escaped newline may be part of the unit)
+    __reUnNumDim = re.compile(r'^([+-]?)(\d*\.\d+|\d+)(.*)$', re.I | re.U | re.X | re.S)
     _dimension = None
     _sign = None
 
